@@ -369,7 +369,21 @@ def gen_c11(tier, rng):
     al3 = ["--no-cache", "-n", "-nn", "--no-no-cache", "--no-wait", "-w", "-nw", "--no-no-wait", "--other", "--no-other"]
     for argv in og.all_argv(al3, 3 if big else 2):
         out.append(pcase("C11", d3, {}, argv))
-    return with_histories(with_moved(out, rng, 6000 if tier == "thorough" else 1500), rng, 2400 if tier == "thorough" else 600)
+    out = with_histories(with_moved(out, rng, 6000 if tier == "thorough" else 1500), rng, 2400 if tier == "thorough" else 600)
+    # a toggle declared *after* the parser has already parsed once counts like any other (declaration histories
+    # with probe parses in between: the D engine of C13)
+    for g in (0, 1):
+        for first in (["-x"], ["--a"], [], ["-xx"]):
+            for later in (["-xyy"], ["--b"], ["-y"], ["-yx"], ["--b", "-x", "--b"], ["-yyy", "--a"], ["--no-b"]):
+                for rev in (False, True):
+                    ops = ["t:0:" + hexs("a"), "sh:0:" + hexs("x"), "probe:" + hexl(first),
+                           "t:%d:%s" % (g, hexs("b")), "sh:1:" + hexs("y"), "probe:" + hexl(later), "probe:" + hexl(first)]
+                    if rev:
+                        ops.insert(3, "o:%d:%s" % (g, hexs("c")))
+                        ops[5] = "sh:2:" + hexs("y")
+                        ops[4] = "t:%d:%s" % (g, hexs("b"))
+                    out.append("\t".join(["opt", "C11", "D", ";".join(ops)]))
+    return out
 
 
 def icase(pos, i):
@@ -452,6 +466,19 @@ def gen_c14(tier, rng):
             out.append(hcase(d2, [({}, a), ({}, b)]))
     for a, b, c in itertools.product(vecs2[:8], repeat=3) if big else []:
         out.append(hcase(d2, [({}, a), ({"NV_R": "e"}, b), ({}, c)]))
+    # a third declaration: every kind bound to an environment variable; the environment is consulted in several
+    # parses of one parser object (and changes in between)
+    d3 = D([O("m", "inc", "I", env="NV_M", flag=True), O("o", "opt", "o", env="NV_O", flag=True),
+            O("t", "tog", "t", env="NV_T", flag=True), O("m", "req", "R", env="NV_Q")], allowed=1)
+    envs3 = [{"NV_Q": "q"}, {"NV_Q": "q", "NV_M": "a;b"}, {"NV_Q": "q1;q2", "NV_M": "c"}, {"NV_Q": "q", "NV_O": "e"},
+             {"NV_Q": "q", "NV_T": "on"}, {"NV_Q": "x;y", "NV_M": "a;b", "NV_O": "e", "NV_T": "off"}, {}]
+    vecs3 = [[], ["-I", "x"], ["--opt", "v"], ["-t"], ["-R", "r"]]
+    steps3 = [(e, v) for e in envs3 for v in vecs3]
+    for a in steps3:
+        for b in steps3:
+            out.append(hcase(d3, [a, b]))
+    for _ in range(3000 if big else 400):
+        out.append(hcase(d3, [rng.choice(steps3) for _ in range(3 + rng.below(3))]))
     # the same histories with the parser object moved between the parses
     hs = [c for c in out if "\tH\t" in c]
     out += [c.replace("\tH\t", "\tHM\t", 1) for c in rng.shuffle(hs)[:(4000 if big else 800)]]
